@@ -43,7 +43,8 @@ Record CInv (c : call) : Prop := {
              c_inflight c = false /\ c_fcancel c = false /\ c_started c = None;
   CI_scope : c_scope_cancelled c = true -> c_fut c = CCancelled /\ c_captured c = true;
   CI_inflight : c_inflight c = true -> c_fut c = CCancelled /\ c_fcancel c = true /\ c_captured c = true;
-  CI_noscope : enteredp (c_phase c) = false -> c_scope_cancelled c = false /\ c_inflight c = false
+  CI_noscope : enteredp (c_phase c) = false -> c_scope_cancelled c = false /\ c_inflight c = false;
+  CI_basefail : donep (c_phase c) = false -> c_base_fail c = false
 }.
 
 Ltac dmatch :=
@@ -76,7 +77,8 @@ Ltac cinv_start H :=
   let H4 := fresh "Hopen" in let H5 := fresh "Hclosed" in let H6 := fresh "Hkind" in
   let H7 := fresh "Hstarted" in let H8 := fresh "Hstatus" in let H9 := fresh "Hearly" in
   let H10 := fresh "Hscope" in let H11 := fresh "Hinfl" in let H12 := fresh "Hnoscope" in
-  destruct H as [H1 H2 H3 H4 H5 H6 H7 H8 H9 H10 H11 H12].
+  let H13 := fresh "Hbasefail" in
+  destruct H as [H1 H2 H3 H4 H5 H6 H7 H8 H9 H10 H11 H12 H13].
 
 Lemma cinv_status_on_done c :
   CInv c -> landedp (c_phase c) = true -> c_fut c <> CPending -> CInv (status_on_done c).
@@ -95,7 +97,7 @@ Qed.
 Ltac frame_tac c :=
   cbv zeta;
   destruct c as [kd ph fu stt ex cap sc inf bf inv out sta fcn asg];
-  unfold finish_ret, finish_exc, finish_cancelled, fut_set, status_on_done, future_cancel, callback_registered,
+  unfold finish_ret, finish_exc, finish_cancelled, finish_cancel_own, fut_set, status_on_done, future_cancel, callback_registered,
          apply_started, is_pending, is_cancelled in *; cbn in *; repeat (progress dmatch; cbn in * );
   try discriminate; auto 10.
 
@@ -121,6 +123,11 @@ Lemma finish_cancelled_frame gc c :
   c_kind c' = c_kind c /\ c_phase c' = PFinished /\ c_execs c' = c_execs c /\ c_captured c' = c_captured c.
 Proof. destruct gc; frame_tac c; repeat split. Qed.
 
+Lemma finish_cancel_own_frame c :
+  let c' := finish_cancel_own c in
+  c_kind c' = c_kind c /\ c_phase c' = PFinished /\ c_execs c' = c_execs c /\ c_captured c' = c_captured c.
+Proof. frame_tac c; repeat split. Qed.
+
 Lemma apply_started_frame c sv c1 : apply_started c sv = Some c1 ->
   c_kind c1 = c_kind c /\ c_phase c1 = c_phase c /\ c_execs c1 = c_execs c /\ c_captured c1 = c_captured c /\
   c_fut c1 = c_fut c /\ c_scope_cancelled c1 = c_scope_cancelled c.
@@ -136,13 +143,15 @@ Lemma body_step_frame gc c w sv f c' : body_step gc c w sv f = Some c' ->
 Proof.
   unfold body_step. destruct (apply_started c sv) as [c1|] eqn:E; [|discriminate].
   apply apply_started_frame in E. destruct E as (E1 & E2 & E3 & E4 & _).
-  destruct f as [|v|e|].
+  destruct f as [|v|e| |].
   - intros [= <-]. cbn. rewrite E1, E3, E4. auto.
   - intros [= <-]. destruct (finish_ret_frame c1 v) as (F1 & F2 & F3 & F4).
     rewrite F1, F2, F3, F4, E1, E3, E4. auto.
   - intros [= <-]. destruct (finish_exc_frame c1 e) as (F1 & F2 & F3 & F4).
     rewrite F1, F2, F3, F4, E1, E3, E4. auto.
   - destruct w; [discriminate|]. intros [= <-]. destruct (finish_cancelled_frame gc c1) as (F1 & F2 & F3 & F4).
+    rewrite F1, F2, F3, F4, E1, E3, E4. auto.
+  - intros [= <-]. destruct (finish_cancel_own_frame c1) as (F1 & F2 & F3 & F4).
     rewrite F1, F2, F3, F4, E1, E3, E4. auto.
 Qed.
 
@@ -151,9 +160,10 @@ Lemma first_step_frame run gc c sv f c' : first_step run gc c sv f = Some c' ->
   c_captured c' = run.
 Proof.
   unfold first_step. destruct (c_kind c) eqn:Ek.
-  - destruct sv; [discriminate|]. destruct f as [|v|e|]; try discriminate; intros [= <-].
+  - destruct sv; [discriminate|]. destruct f as [|v|e| |]; try discriminate; intros [= <-].
     + destruct (finish_ret_frame (with_entry c run) v) as (F1 & F2 & F3 & F4). rewrite F1, F2, F3, F4. cbn. auto.
     + destruct (finish_exc_frame (with_entry c run) e) as (F1 & F2 & F3 & F4). rewrite F1, F2, F3, F4. cbn. auto.
+    + destruct (finish_cancel_own_frame (with_entry c run)) as (F1 & F2 & F3 & F4). rewrite F1, F2, F3, F4. cbn. auto.
   - intros H. apply body_step_frame in H. destruct H as (F1 & F2 & F3 & F4).
     rewrite F1, F3, F4. destruct (is_cancelled _ && _); cbn; auto.
   - intros H. apply body_step_frame in H. destruct H as (F1 & F2 & F3 & F4).
@@ -232,15 +242,30 @@ Proof.
   - unfold finish_cancelled; cbn. destruct (sc && negb gc); cbn; constructor; cbn; cfield.
 Qed.
 
+Lemma rinv_finish_cancel_own c : RInv c -> CInv (finish_cancel_own c).
+Proof.
+  unfold RInv. intros H. cinv_start H.
+  destruct c as [kd ph fu stt ex cap sc inf bf inv out sta fcn asg]; cbn in *.
+  destruct (Hopen eq_refl) as [Hout [Hfu|[Hfu Hfc]]]; subst.
+  - assert (sc = false) by (destruct sc; [destruct (Hscope eq_refl); discriminate|reflexivity]). subst sc.
+    unfold finish_cancel_own, status_on_done; cbn.
+    destruct kd; cbn.
+    + constructor; cbn; cfield.
+    + destruct cap; cbn; constructor; cbn; cfield.
+    + destruct stt; cbn; destruct cap; cbn; constructor; cbn; cfield.
+  - unfold finish_cancel_own; cbn. constructor; cbn; cfield.
+Qed.
+
 Lemma rinv_body_step gc c w sv f c' : RInv c -> body_step gc c w sv f = Some c' -> CInv c'.
 Proof.
   intros H. unfold body_step. destruct (apply_started c sv) as [c1|] eqn:E; [|discriminate].
   pose proof (rinv_started c sv c1 H E) as H1.
-  destruct f as [|v|e|].
+  destruct f as [|v|e| |].
   - intros [= <-]. exact H1.
   - intros [= <-]. apply rinv_finish_ret, H1.
   - intros [= <-]. apply rinv_finish_exc, H1.
   - destruct w; [discriminate|]. intros [= <-]. apply rinv_finish_cancelled, H1.
+  - intros [= <-]. apply rinv_finish_cancel_own, H1.
 Qed.
 
 Lemma cinv_entry c run : CInv c -> c_phase c = PLanded ->
@@ -261,9 +286,10 @@ Lemma cinv_first_step run gc c sv f c' :
 Proof.
   intros H Hp. destruct (cinv_entry c run H Hp) as [R1 R2].
   unfold first_step. destruct (c_kind c).
-  - destruct sv; [discriminate|]. destruct f as [|v|e|]; try discriminate; intros [= <-].
+  - destruct sv; [discriminate|]. destruct f as [|v|e| |]; try discriminate; intros [= <-].
     + apply rinv_finish_ret, R1.
     + apply rinv_finish_exc, R1.
+    + apply rinv_finish_cancel_own, R1.
   - apply rinv_body_step, R2.
   - apply rinv_body_step, R2.
 Qed.
@@ -671,6 +697,7 @@ Theorem portal_outcome_recorded s k w sv f s' : step s (TaskStep k w sv f) = (s'
   | FReturn v => c_phase c' = PFinished /\ c_outcome c' = Some (ORet v)
   | FRaise e => c_phase c' = PFinished /\ c_outcome c' = Some (ORaise e)
   | FReraise => c_phase c' = PFinished /\ c_outcome c' = Some OCancelledOut /\ w = WInterrupt
+  | FCancelOwn => c_phase c' = PFinished /\ c_outcome c' = Some OCancelledOut
   end /\
   (forall v, sv = Some v -> c_started c' = Some v /\ c_status c' = CResult v /\ c_kind c' = KStart).
 Proof.
@@ -681,10 +708,11 @@ Proof.
      | FReturn v => c_phase c' = PFinished /\ c_outcome c' = Some (ORet v)
      | FRaise e => c_phase c' = PFinished /\ c_outcome c' = Some (ORaise e)
      | FReraise => c_phase c' = PFinished /\ c_outcome c' = Some OCancelledOut /\ w = WInterrupt
+     | FCancelOwn => c_phase c' = PFinished /\ c_outcome c' = Some OCancelledOut
      end /\
      (forall v, sv = Some v -> c_started c' = Some v /\ c_status c' = CResult v /\ c_kind c' = KStart)).
   { intros gc c c'. destruct c as [kd ph fu stt ex cap sc inf bf inv out sta fcn asg].
-    unfold body_step, apply_started, finish_ret, finish_exc, finish_cancelled, fut_set, status_on_done,
+    unfold body_step, apply_started, finish_ret, finish_exc, finish_cancelled, finish_cancel_own, fut_set, status_on_done,
       is_pending, is_cancelled; cbn.
     destruct f, w, sv; cbn; repeat (progress dmatch; cbn); try discriminate; intros [= <-]; cbn;
       (split; [auto|intros ? E; try discriminate E; injection E as <-; auto]). }
@@ -692,7 +720,7 @@ Proof.
   - destruct w; [|discriminate]. destruct (first_step _ _ _ _ _) as [c1|] eqn:E; [|discriminate].
     intros [= <-]. cbn. rewrite upd_same.
     unfold first_step in E. destruct (c_kind (calls s k)) eqn:Ek.
-    + destruct sv; [discriminate|]. destruct f as [|v|e|]; try discriminate; injection E as <-;
+    + destruct sv; [discriminate|]. destruct f as [|v|e| |]; try discriminate; injection E as <-;
         (split; [cbn; auto|intros v1; discriminate]).
     + eapply B, E.
     + eapply B, E.
@@ -703,7 +731,7 @@ Qed.
 
 (* once a cell holds a value it never changes again (single assignment, as a statement about steps) *)
 Ltac unfold_all :=
-  unfold first_step, body_step, apply_started, finish_ret, finish_exc, finish_cancelled, fut_set, status_on_done,
+  unfold first_step, body_step, apply_started, finish_ret, finish_exc, finish_cancelled, finish_cancel_own, fut_set, status_on_done,
     future_cancel, callback_registered, is_pending, is_cancelled; cbn.
 
 Lemma body_step_cells gc c w sv f c' : body_step gc c w sv f = Some c' ->
@@ -880,6 +908,72 @@ Example ex_fc_history_fixed :
   c_inflight (calls s 0) = true /\
   snd (step (fst (step s (CancelLand 0))) (TaskStep 0 WInterrupt None FReraise)) = RStepped.
 Proof. vm_compute. repeat split. Qed.
+
+(* ---------- 3b. a cancellation that is a call's OWN outcome stays local ---------- *)
+(* every TaskStep is local: only the record of its own call can change *)
+Theorem portal_task_step_frame s k w sv f :
+  let s' := fst (step s (TaskStep k w sv f)) in
+  (forall j, j <> k -> calls s' j = calls s j) /\ group_cancelled s' = group_cancelled s /\
+  running s' = running s /\ stop_event s' = stop_event s /\ members s' = members s /\ host s' = host s /\
+  woken s' = woken s.
+Proof.
+  cbv zeta. split; [intros j Hj; apply step_other; cbn; congruence|].
+  cbn [step]. destruct (c_phase (calls s k)); cbn; auto 10.
+  - destruct w; cbn; auto 10. destruct (first_step _ _ _ _ _); cbn; auto 10.
+  - destruct (match w with WNormal => true | WInterrupt => _ end); cbn; auto 10.
+    destruct (body_step _ _ _ _ _); cbn; auto 10.
+Qed.
+
+Lemma body_step_own_basefail gc c w sv c' : body_step gc c w sv FCancelOwn = Some c' -> c_base_fail c' = c_base_fail c.
+Proof.
+  destruct c as [kd ph fu stt ex cap sc inf bf inv out sta fcn asg]. unfold_all.
+  destruct w, sv; cbn; repeat (progress dmatch; cbn); try discriminate; intros [= <-]; cbn; auto.
+Qed.
+
+Lemma first_step_own_basefail run gc c sv c' : first_step run gc c sv FCancelOwn = Some c' -> c_base_fail c' = c_base_fail c.
+Proof.
+  destruct c as [kd ph fu stt ex cap sc inf bf inv out sta fcn asg]. unfold_all.
+  destruct kd, sv; cbn; repeat (progress dmatch; cbn); try discriminate; intros [= <-]; cbn; auto.
+Qed.
+
+(* The callable of call k ends with a cancellation nobody requested through the portal (it raised CancelledError,
+   awaited a cancelled asyncio future, or its task was cancelled natively).  Then: the future of call k -- and
+   only that -- becomes cancelled; no other call record, not the group scope, not the running flag, not the
+   membership, not the host change; the task does NOT count as failed, so reaping it leaves the group scope
+   and the running flag exactly as they were: every other call still delivers its own outcome and the portal
+   keeps accepting calls. *)
+Theorem portal_own_cancellation_is_local f4 fc s k w sv s' : reach f4 fc s ->
+  step s (TaskStep k w sv FCancelOwn) = (s', RStepped) ->
+  (forall j, j <> k -> calls s' j = calls s j) /\ group_cancelled s' = group_cancelled s /\
+  running s' = running s /\ members s' = members s /\ host s' = host s /\
+  c_phase (calls s' k) = PFinished /\ c_fut (calls s' k) = CCancelled /\
+  c_outcome (calls s' k) = Some OCancelledOut /\ c_base_fail (calls s' k) = false /\ c_invalid (calls s' k) = false /\
+  (let s'' := fst (step s' (TaskReap k)) in
+   snd (step s' (TaskReap k)) = RNone /\ group_cancelled s'' = group_cancelled s /\ running s'' = running s /\
+   (forall j, j <> k -> calls s'' j = calls s j) /\ c_phase (calls s'' k) = PReaped /\
+   c_fut (calls s'' k) = CCancelled).
+Proof.
+  intros R Hs. pose proof (reach_inv _ _ _ R) as I.
+  assert (Es : s' = fst (step s (TaskStep k w sv FCancelOwn))) by (rewrite Hs; reflexivity).
+  assert (R' : reach f4 fc s') by (rewrite Es; apply reach_step, R).
+  destruct (portal_task_step_frame s k w sv FCancelOwn) as (F1 & F2 & F3 & _ & F5 & F6 & _). rewrite <- Es in *.
+  destruct (portal_outcome_recorded s k w sv FCancelOwn s' Hs) as [[Hp Ho] _].
+  destruct (portal_future_single_assignment _ _ s' k R') as (_ & Hinv & _ & _ & _ & _ & _ & Hco & _).
+  pose proof (Hco Ho) as Hfut.
+  assert (Hbf : c_base_fail (calls s' k) = false).
+  { revert Hs. cbn [step]. destruct (c_phase (calls s k)) eqn:Ep; try discriminate.
+    - destruct w; [|discriminate]. destruct (first_step _ _ _ _ _) as [c'|] eqn:E; [|discriminate].
+      intros [= <-]. cbn. rewrite upd_same. rewrite (first_step_own_basefail _ _ _ _ _ E).
+      apply (CI_basefail _ (I_call s I k)). rewrite Ep. reflexivity.
+    - destruct (match w with WNormal => true | WInterrupt => _ end); [|discriminate].
+      destruct (body_step _ _ _ _ _) as [c'|] eqn:E; [|discriminate].
+      intros [= <-]. cbn. rewrite upd_same. rewrite (body_step_own_basefail _ _ _ _ _ E).
+      apply (CI_basefail _ (I_call s I k)). rewrite Ep. reflexivity. }
+  refine (conj F1 (conj F2 (conj F3 (conj F5 (conj F6 (conj Hp (conj Hfut (conj Ho (conj Hbf (conj Hinv _)))))))))).
+  cbn [step]. rewrite Hp. cbn. rewrite Hbf, Bool.orb_false_r, upd_same. cbn.
+  refine (conj eq_refl (conj F2 (conj F3 (conj _ (conj eq_refl Hfut))))).
+  intros j Hj. rewrite upd_other by exact Hj. apply F1, Hj.
+Qed.
 
 (* ---------- 4. portal_refuses_after_stop ---------- *)
 Theorem portal_stop_clears_running s cr :
@@ -1102,4 +1196,16 @@ Example ex_result_dropped :
     [ThreadIssue 0 KSync; ThreadLand 0; FutureCancel 0; TaskStep 0 WNormal None (FReturn 9%Z)] in
   c_fut (calls s 0) = CCancelled /\ c_outcome (calls s 0) = Some (ORet 9%Z) /\ c_execs (calls s 0) = 1 /\
   c_assigns (calls s 0) = 1 /\ c_invalid (calls s 0) = false.
+Proof. vm_compute. repeat split. Qed.
+
+(* call 0 ends with a cancellation of its own while call 1 is in flight: call 1 is untouched and later delivers its
+   value, the group scope is not cancelled, and a later call is still accepted *)
+Example ex_own_cancellation_local :
+  let s := final step (init true true) ex_ops2 in
+  snd (step s (TaskStep 0 WNormal None FCancelOwn)) = RStepped /\
+  let s2 := final step s [TaskStep 0 WNormal None FCancelOwn; TaskReap 0; TaskStep 1 WNormal None (FReturn 7%Z);
+                          ThreadIssue 2 KSync] in
+  c_fut (calls s2 0) = CCancelled /\ c_fut (calls s2 1) = CResult 7%Z /\ group_cancelled s2 = false /\
+  running s2 = true /\ c_phase (calls s2 2) = PIssued /\ c_scope_cancelled (calls s2 1) = false /\
+  snd (step s2 (TaskStep 1 WInterrupt None FReraise)) = RRejected.
 Proof. vm_compute. repeat split. Qed.
